@@ -209,6 +209,9 @@ func searchSequential(run *mc.Run, cov *mc.Coverage) {
 	// once more with a component that carries the reserved name of the summary entry: its own line of the body
 	// cannot be told from the summary, so only the status code, IsReady and the summary are judged
 	searchSequentialOver(run, cov, []string{"a", health.OverallReady}, true)
+	// ... and with names that differ in case only (incl. the long s, which Unicode folds onto s): they are three
+	// components, and a mark for one is no mark for another
+	searchSequentialOver(run, cov, []string{"sshd", "Sshd", "\u017fshd"}, false)
 }
 
 func searchSequentialOver(run *mc.Run, cov *mc.Coverage, names []string, reserved bool) {
